@@ -161,3 +161,37 @@ package identity
 //@   modifies nothing
 //@   defines [keys-in-force] result == keysInForce(recv, clockName, time)
 //@   ensures forall k int :: { result[k] } 0 <= k && k < len(result) ==> result[k] != nil && result[k].public != nil
+
+// Removing an identity (C14): when Remove reports success the local ref and the remote-tracking ref of every
+// configured remote are gone; only refs that start with one of those names are touched.
+//@ func Remove
+//@   props C14
+//@   requires repo != nil
+//@   let sid = string(id)
+//@   let local = "refs/identities/" + sid
+//@   ensures [local-removed]   result == nil ==> !(local in repository.refs)
+//@   ensures [remotes-removed] result == nil ==> (forall r string :: { (r in repository.remotes) } (r in repository.remotes) ==> !(("refs/remotes/" + r + "/identities/" + sid) in repository.refs))
+//@   ensures [only-prefixed]   forall q string :: { (q in repository.refs) } !strings.HasPrefix(q, local) && (forall r string :: { (r in repository.remotes) } (r in repository.remotes) ==> !strings.HasPrefix(q, "refs/remotes/" + r + "/identities/" + sid)) ==> (q in repository.refs) == (q in old(repository.refs)) && repository.refs[q] == old(repository.refs)[q]
+//@   loop 1
+//@     invariant [l1-refs]   repository.refs == old(repository.refs) && (fullMatches == nil || fresh(fullMatches))
+//@     invariant [l1-local]  (local in repository.refs) ==> len(fullMatches) >= 1 && fullMatches[0] == local
+//@     invariant [l1-seen]   forall r string :: { iterseen[r] } iterseen[r] && (("refs/remotes/" + r + "/identities/" + sid) in repository.refs) ==> (exists k int :: { fullMatches[k] } 0 <= k && k < len(fullMatches) && fullMatches[k] == "refs/remotes/" + r + "/identities/" + sid)
+//@     invariant [l1-kind]   forall k int :: { fullMatches[k] } 0 <= k && k < len(fullMatches) ==> strings.HasPrefix(fullMatches[k], local) || (exists r string :: (r in repository.remotes) && strings.HasPrefix(fullMatches[k], "refs/remotes/" + r + "/identities/" + sid))
+//@   loop 2
+//@     invariant [l2-gone]   forall k int :: { fullMatches[k] } 0 <= k && k <= rangeindex ==> !(fullMatches[k] in repository.refs)
+//@     invariant [l2-others] forall q string :: { (q in repository.refs) } (forall k int :: { fullMatches[k] } 0 <= k && k < len(fullMatches) ==> fullMatches[k] != q) ==> (q in repository.refs) == (q in old(repository.refs)) && repository.refs[q] == old(repository.refs)[q]
+//@     invariant [l2-shrinks] forall q string :: { (q in repository.refs) } (q in repository.refs) ==> (q in old(repository.refs))
+
+// The user identity is the configuration entry git-bug.identity; clearing it when it is not set fails
+// (RemoveAll on a prefix without entry).
+//@ func ClearUserIdentity
+//@   props C14
+//@   requires repo != nil
+//@   requires [identity-set] "git-bug.identity" in repository.cfgKeys
+//@   modifies repository.cfgKeys
+//@   ensures [cleared] result == nil ==> (forall k string :: { (k in repository.cfgKeys) } (k in repository.cfgKeys) == (old(k in repository.cfgKeys) && !strings.HasPrefix(k, "git-bug.identity")))
+//@   ensures [error]   result != nil ==> repository.cfgKeys == old(repository.cfgKeys)
+//@ func IsUserIdentitySet
+//@   trusted
+//@   modifies nothing
+//@   ensures result1 == nil ==> result == ("git-bug.identity" in repository.cfgKeys)
